@@ -83,8 +83,7 @@ def tracked_type(ty):
         '(utils::bbox::Universal2DBox, std::option::Option<i64>)' in ty
 
 
-def r1(ctx):
-    R = 'R01.1'
+def r1(ctx, R='R01.1'):
     ctx.rule(R, 'order-preserving pipeline: candidates from input in order; exactly one push per candidate; no '
                 'reordering/dropping operation on candidates or records')
     F = ctx.F
